@@ -2,7 +2,7 @@
 
 PROP = dict(
     module="JadeModel.Props.C18", ns="Jade.C18",
-    required=["C18_script_exact", "C18_script_optional_iff", "C18_run_script", "table_conservative",
+    required=["C18_query_failure_decides_nothing", "C18_script_exact", "C18_script_optional_iff", "C18_run_script", "table_conservative",
               "C18_status_conservative", "C18_parse_exact", "C18_malformed_raises", "regex_is_modelled",
               "C18_sbatch_unparsable_is_error", "C18_sbatch_failure_is_error", "C18_sbatch_good_has_id",
               "C18_retry_bounded", "C18_retry_spec"],
